@@ -321,7 +321,7 @@ impl C07 {
         let dir = ctx.scratch.sub("c07");
         let key = parts[2] ^ parts[1].rotate_left(32);
         let policy = if rng.chance(1, 2) { Policy::AlwaysFlush } else { Policy::AlwaysFsync };
-        let profile = if rng.chance(4, 5) { Profile::Align } else { Profile::Huge };
+        let profile = *rng.pick(&[Profile::Align, Profile::Align, Profile::Align, Profile::Align, Profile::Align, Profile::Huge, Profile::BigName, Profile::Idle]);
         let mut d = match Driver::start(&dir, policy, key, &parts, profile, rng.usize(1, 3)) {
             Ok(d) => d,
             Err(e) => {
